@@ -78,7 +78,7 @@ func genScript(rng *rand.Rand, famName string, gap bool) scriptT {
 		switch {
 		case (k < 3 || len(started) == 0) && ncalls < maxCalls:
 			ncalls++
-			st := step{Op: "start", Call: ncalls, Xid: uint32(1 + rng.IntN(pool)), Matcher: []string{"nil", "typed", "typed", "reject"}[rng.IntN(4)], Tries: 1 + rng.IntN(2)}
+			st := step{Op: "start", Call: ncalls, Xid: uint32(1 + rng.IntN(pool)), Matcher: []string{"nil", "typed", "typed", "reject", "lib-accept", "lib-other"}[rng.IntN(6)], Tries: 1 + rng.IntN(2)}
 			if rng.IntN(3) == 0 {
 				st.Own = 1 + rng.IntN(2)
 			}
@@ -186,8 +186,10 @@ func (m *model) accepts(c *mcall, typ int) bool {
 	switch c.matcher {
 	case "nil":
 		return true
-	case "typed":
+	case "typed", "lib-accept":
 		return typ == m.f.AcceptType()
+	case "lib-other":
+		return typ == m.f.OtherType()
 	}
 	return false
 }
@@ -294,6 +296,7 @@ func execute(t *testing.T, sc scriptT) (res map[int]*result, tx int, matcherNil 
 			t.Fatal(err)
 		}
 		start := time.Now()
+		shared := cli.NewSharedTypes()
 		cancels := map[int]context.CancelFunc{}
 		done := make(chan struct{}, 64)
 		running := 0
@@ -326,6 +329,20 @@ func execute(t *testing.T, sc scriptT) (res map[int]*result, tx int, matcherNil 
 					}
 				}
 				req := f.Request(st.Xid, 0)
+				switch st.Matcher {
+				case "lib-accept": // the library's own matcher constructor, its variadic tail spread from one kept list
+					req.Lib = &cli.LibMatch{First: accept, Rest: shared}
+				case "lib-other":
+					req.Lib = &cli.LibMatch{First: f.OtherType(), Rest: shared}
+				}
+				if req.Lib != nil {
+					m = func(rp cli.Resp) bool {
+						if rp.Nil {
+							nilCnt.Add(1)
+						}
+						return false
+					}
+				}
 				running++
 				go func() {
 					rp, got, err := c.SendAndRead(ctx, dest, req, m)
@@ -500,7 +517,7 @@ func judge(r *mon.Rec, t *testing.T, sc scriptT, tag string) {
 				bad("foreign-or-filtered-datagram", "call %d (xid %d) returned datagram %d (xid %d, class %s)", id, cs.Xid, d.Nonce, d.Xid, d.Class)
 				return
 			}
-			if cs.Matcher == "reject" || (cs.Matcher == "typed" && d.Type != f.AcceptType()) {
+			if cs.Matcher == "reject" || ((cs.Matcher == "typed" || cs.Matcher == "lib-accept") && d.Type != f.AcceptType()) || (cs.Matcher == "lib-other" && d.Type != f.OtherType()) {
 				bad("matcher-rejects", "call %d (matcher %s) returned datagram %d of type %d", id, cs.Matcher, d.Nonce, d.Type)
 				return
 			}
